@@ -113,6 +113,13 @@ def r23(ctx, chk, rule2="C03.2", rule3="C03.3"):
         if cond != TRUE:
             okc = _something_dropped(k, cond)
             if okc is None:
+                extra = _extra_guard(k, cond)
+                if extra is not None:
+                    chk.violation(rule2, where, "the rewrite is also skipped when `%s` fails, even though a dead successor was found "
+                                  "(e.g. final states have reach_probability 1 whatever their successors are): the dead successor stays" % show(extra),
+                                  expected="skipped only when nothing was dropped", found=show(cond),
+                                  construct="%s.prune_paths extra skip condition" % cls)
+                    continue
                 chk.undecided(rule2, where, "next_states is replaced only under `%s`; not recognised as 'a successor was dropped'" % show(cond))
                 continue
             if okc:
@@ -226,6 +233,55 @@ def _something_dropped(k, cond):
                 return False
             return False
     return None
+
+
+def _conjuncts(t):
+    t = simp(t)
+    if t[0] == "and":
+        return [c for x in t[1] for c in _conjuncts(x)]
+    if t[0] == "not" and t[1][0] == "ite":
+        _, c, a, b = t[1]
+        if a == TRUE:                      # not (True if c else b)  ==  not c and not b
+            return _conjuncts(("not", c)) + _conjuncts(("not", b))
+        if b == TRUE:
+            return _conjuncts(c) + _conjuncts(("not", a))
+    if t[0] == "not" and t[1][0] == "or":
+        return [c for x in t[1][1] for c in _conjuncts(("not", x))]
+    if t[0] == "ite" and t[3] == FALSE:
+        return _conjuncts(t[1]) + _conjuncts(t[2])
+    if t[0] == "ite" and t[2] == FALSE:
+        return _conjuncts(("not", t[1])) + _conjuncts(t[3])
+    return [t]
+
+
+def _extra_guard(k, cond):
+    """cond = (a successor was dropped) AND g, with g a test of the state's own scalar fields that is not implied by
+    'something was dropped': returns g.  A test of reach_probability against 0 is left undecided (a state whose value
+    is 0 has only dead successors and is cleared later anyway)."""
+    cs = _conjuncts(cond)
+    if len(cs) < 2:
+        return None
+    dropped = [c for c in cs if _something_dropped(k, c) is True]
+    rest = [c for c in cs if _something_dropped(k, c) is not True]
+    if not dropped or not rest:
+        return None
+    out = []
+    for g in rest:
+        # implied by 'something was dropped': the list is not empty
+        if g in (simp(("truthy", SELF_NEXT)), simp(("cmp", "!=", ("call", "len", (SELF_NEXT,), ()), C(0))),
+                 simp(("cmp", "<", C(0), ("call", "len", (SELF_NEXT,), ())))):
+            continue
+        subs = _sub(g)
+        fields = [x for x in subs if x[0] == "attr" and x[1] == ("v", "self")]
+        others = [x for x in subs if x[0] in ("v", "call", "mcall", "idx", "elem", "res", "acc") and x != ("v", "self")]
+        if not fields or others:
+            return None
+        if g[0] == "cmp" and any(is_const(x) and x[1] == 0 and not isinstance(x[1], bool) for x in (g[2], g[3])) and SF(REACH) in (g[2], g[3]):
+            return None
+        out.append(g)
+    if not out:
+        return None
+    return out[0] if len(out) == 1 else ("and", tuple(out))
 
 
 def _sequential_removal(ctx, chk, k, cls, rule3, where):
